@@ -185,3 +185,120 @@ def windows_bytes_twins(chk):
                     if a != b:
                         _viol(chk, 'C17', 'Windows_rules_bytes_pattern_selects_the_mode_of_its_str_twin', f'{nm}({name!r}, {p!r}, {fn}) is {a}, the bytes twin gives {b}',
                               f"from wcmatch import {nm} as m\nprint(m.{'globmatch' if api is G else 'fnmatch'}({name.encode()!r}, {p.encode()!r}, flags={fl}))", pattern=p, name=name, fl=fn)
+
+
+def split_then_tilde(chk):
+    """C07: with SPLIT every piece is a pattern of its own - also for GLOBTILDE: `a|~/b` is the list ['a', '~/b'] (inline and through exclude=)."""
+    import tempfile
+    import shutil
+    from wcmatch import glob as G
+    home = tempfile.mkdtemp(prefix='wcv-home-')
+    work = tempfile.mkdtemp(prefix='wcv-work-')
+    old_home = os.environ.get('HOME')
+    try:
+        for d, names in ((home, ('h1.txt', 'h2.log', 'h3.md')), (work, ('w1.md', 'w2.txt'))):
+            for n in names:
+                open(os.path.join(d, n), 'w').close()
+        os.environ['HOME'] = home
+        fl = G.S | G.T | G.U
+        for pat, pieces, kw in (('*.md|~/*.txt', ['*.md', '~/*.txt'], {}), ('~/*.log|*.txt|~/*.md', ['~/*.log', '*.txt', '~/*.md'], {}), ('*|!~/*.log', None, {}), ('~/*', ['~/*'], dict(exclude='*.md|~/*.log')),
+                                ('*.txt|~/h1.*', ['*.txt', '~/h1.*'], {})):
+            chk.case(key=('split-tilde', pat, str(kw)))
+            try:
+                got = sorted(G.glob(pat, flags=fl | (G.N if '!' in pat else 0), root_dir=work, **kw))
+                if pieces is None:
+                    want = sorted(x for x in G.glob('*', flags=G.T | G.U, root_dir=work) if x not in G.glob('~/*.log', flags=G.T | G.U, root_dir=work))
+                else:
+                    want = set()
+                    for q in pieces:
+                        want |= set(G.glob(q, flags=G.T | G.U, root_dir=work))
+                    if kw:
+                        for q in kw['exclude'].split('|'):
+                            want -= set(G.glob(q, flags=G.T | G.U | G.D, root_dir=work))
+                    want = sorted(want)
+            except Exception as e:
+                _viol(chk, 'C07', 'SPLIT_pieces_are_tilde-expanded_one_by_one', f'glob({pat!r}, SPLIT|GLOBTILDE, {kw}) raised {type(e).__name__}: {e}', '# see checks/fixed_clauses.py split_then_tilde', pattern=pat)
+                continue
+            if got != want:
+                _viol(chk, 'C07', 'SPLIT_pieces_are_tilde-expanded_one_by_one', f'glob({pat!r}, SPLIT|GLOBTILDE, {kw}) with HOME={home} returns {got}; the pieces one by one give {want}',
+                      '# see checks/fixed_clauses.py split_then_tilde (needs a scratch HOME)', pattern=pat)
+    finally:
+        if old_home is None:
+            os.environ.pop('HOME', None)
+        else:
+            os.environ['HOME'] = old_home
+        shutil.rmtree(home, ignore_errors=True)
+        shutil.rmtree(work, ignore_errors=True)
+
+
+def pathlib_uniqueness_and_history(chk):
+    """C16: pathlib's normalisation never makes one file appear twice (also under SCANDOTDIR without DOTGLOB), and match(REALPATH) agrees with rglob whatever
+    was asked before in the same process (an rglob with exclusions first, then match on a path below a symlinked directory)."""
+    from wcmatch import pathlib as PL
+    spec = {'.aa': 'd', '.aa/.b': 'f', 'x': 'f', 'real': 'd', 'real/sub': 'd', 'real/sub/b.md': 'f', 'ln': ('l', 'real'), 'c.md': 'f', 'bb.md': 'f'}
+    with trees.Tree(spec) as t:
+        cwd = os.getcwd()
+        os.chdir(t.root)
+        try:
+            root = PL.Path('.')
+            for pat, fl in (('.*/.*', PL.SD), ('.*/.*/.*', PL.SD), ('.*', PL.SD), ('.*/.*', PL.SD | PL.D), ('*/.*', PL.SD), ('.*/*', PL.SD | PL.G)):
+                res = [str(p) for p in root.glob(pat, flags=fl)]
+                chk.case(key=('pathlib-unique', pat, fl))
+                dup = sorted({x for x in res if res.count(x) > 1})
+                if dup:
+                    _viol(chk, 'C16', 'Path.glob_never_yields_one_path_twice_unless_NOUNIQUE', f'Path.glob({pat!r}, flags={fl}) yields {dup} more than once', '# see checks/fixed_clauses.py pathlib_uniqueness_and_history', pattern=pat)
+            # history: exclusions under rglob are compiled with the implicit prefix but WITHOUT the symlink capture; a later match() must not inherit that
+            list(root.rglob(['*.md', '!b*'], flags=PL.N | PL.D))
+            for p in ('*.md', 'b.md', 'sub/*.md'):
+                for fl in (PL.D | PL.P, PL.P, PL.D | PL.P | PL.G):
+                    yielded = {str(x) for x in root.rglob(p, flags=fl & ~PL.P)}
+                    for q in ('ln/sub/b.md', 'real/sub/b.md', 'c.md'):
+                        chk.case(key=('match-after-rglob-exclusion', p, fl, q))
+                        m = PL.Path(q).match(p, flags=fl)
+                        if m != (q in yielded):
+                            _viol(chk, 'C16', 'match(REALPATH)_agrees_with_rglob_whatever_was_asked_before', f'after rglob with an exclusion: Path({q!r}).match({p!r}, flags={fl}) is {m}, rglob yields it: {q in yielded}',
+                                  '# see checks/fixed_clauses.py pathlib_uniqueness_and_history', pattern=p, name=q)
+        finally:
+            os.chdir(cwd)
+
+
+def str_bytes_twins(chk):
+    """C18: is_magic, and RAWCHARS matching, give the same answer for a bytes argument as for its str twin."""
+    from wcmatch import glob as G, fnmatch as F
+    for api, nm in ((G, 'glob'), (F, 'fnmatch')):
+        for fl, fn in ((0, '0'), (api.W, 'W'), (api.U, 'U'), (api.W | api.E | api.B, 'W|E|B'), (api.U | api.S | api.N, 'U|S|N')):
+            for p in ('c:\\\\abc', 'c:/abc', '//host/share/x', '\\\\\\\\host\\\\share\\\\x', 'abc', 'a\\\\b', 'a\\*b', 'a*b', 'c:\\\\a[b]', '//h/s/{a,b}', 'a|b', '-a', '!a', 'a\\', 'c:', '//?/c:\\\\x'):
+                chk.case(key=('is_magic-twin', nm, fn, p))
+                a, b = api.is_magic(p, flags=fl), api.is_magic(p.encode(), flags=fl)
+                if a != b:
+                    _viol(chk, 'C18', 'is_magic_of_a_bytes_pattern_equals_is_magic_of_its_str_twin', f'{nm}.is_magic({p!r}, {fn}) is {a}, the bytes twin gives {b}', f"from wcmatch import {nm} as m\nprint(m.is_magic({p.encode()!r}, flags={fl}))", pattern=p, fl=fn)
+        names = ['a\\b', 'ab', 'aAb', 'a\\zz', 'a*b', 'a\x07b', 'a\\\\b', 'a\\Ab', 'A', 'a']
+        for fl, fn in ((api.R | api.U, 'R|U'), (api.R | api.U | api.E, 'R|U|E'), (api.R | api.W, 'R|W')):
+            for p in (r'a\\b', r'a\\*', r'a\\\x41b', r'a\x5cb', r'a\134b', r'a\ab', r'a\\\\b', r'\x41', r'\101', r'[\x41-\x43]', r'a\x2ab'):
+                for name in names:
+                    chk.case(key=('rawchars-twin', nm, fn, p, name))
+                    call = api.globmatch if api is G else api.fnmatch
+                    try:
+                        a, b = call(name, p, flags=fl), call(name.encode('latin-1'), p.encode(), flags=fl)
+                    except Exception as e:
+                        a, b = 'exc', type(e).__name__
+                    if a != b:
+                        _viol(chk, 'C18', 'RAWCHARS_bytes_pattern_answers_like_its_str_twin', f'{nm}({name!r}, {p!r}, {fn}) is {a}, the bytes twin gives {b}',
+                              f"from wcmatch import {nm} as m\nprint(m.{'globmatch' if api is G else 'fnmatch'}({name.encode('latin-1')!r}, {p.encode()!r}, flags={fl}))", pattern=p, name=name, fl=fn)
+
+
+def windows_spelling_pairs(chk):
+    """C17: under the Windows rules a separator may be written `/` or as an escaped backslash anywhere in the pattern - also inside and right behind a UNC / device prefix."""
+    from wcmatch import glob as G
+    pairs = [(r'\\\\host\\share\\*.txt', '//host/share/*.txt'), (r'\\\\host\\share\\?', '//host/share/?'), (r'\\\\?\\UNC\\h\\s\\[ab]*', '//?/UNC/h/s/[ab]*'), (r'\\\\?\\c:\\*.txt', '//?/c:/*.txt'),
+             (r'c:\\*.txt', 'c:/*.txt'), (r'\\\\host\\share\\**\\x', '//host/share/**/x'), (r'\\\\host\\share\\@(a|b)', '//host/share/@(a|b)'), (r'a\\*\\b', 'a/*/b')]
+    names = ['//host/share/a.txt', '//HOST/share/a.txt', '//host/share/*.txt', '//host/share/a', '//?/UNC/h/s/ax', '//?/c:/q.txt', 'c:/q.txt', 'C:\\q.txt', '//host/share/d/e/x', '//host/share/x', '//host/share/a', 'a/q/b',
+             '//host/share/b', '\\\\host\\share\\a.txt']
+    for fl, fn in ((G.W, 'W'), (G.W | G.C, 'W|C'), (G.W | G.G | G.E, 'W|G|E')):
+        for bsl, sl in pairs:
+            for name in names:
+                chk.case(key=('win-spelling', fn, bsl, name))
+                a, b = G.globmatch(name, bsl, flags=fl), G.globmatch(name, sl, flags=fl)
+                if a != b:
+                    _viol(chk, 'C17', 'escaped_backslash_and_slash_spell_the_same_separator_also_around_a_UNC_prefix', f'globmatch({name!r}, {bsl!r}, {fn}) is {a} but with the separators written `/` ({sl!r}) it is {b}',
+                          f"from wcmatch import glob\nprint(glob.globmatch({name!r}, {bsl!r}, flags={fl}), glob.globmatch({name!r}, {sl!r}, flags={fl}))", pattern=bsl, name=name, fl=fn)
